@@ -56,14 +56,19 @@ impl ValidatorSync for LinePatternValidator {
                         continue;
                     }
                     if !re.is_match(trimmed_line) {
-                        let violation_line_number = block_with_context
-                            .block
-                            .start_tag_position_range
-                            .start()
-                            .line
-                            + line_number;
-                        let line_character_start =
-                            trimmed_line.as_ptr() as usize - line.as_ptr() as usize + 1; // Start position is 1-based.
+                        // The content starts where the start tag's comment ends: its first line
+                        // may be the rest of that comment's last line.
+                        let content_start = &block_with_context.block.content_position_range.start;
+                        let violation_line_number = content_start.line + line_number;
+                        let column_offset = if line_number == 0 {
+                            content_start.character - 1
+                        } else {
+                            0
+                        };
+                        let line_character_start = trimmed_line.as_ptr() as usize
+                            - line.as_ptr() as usize
+                            + 1
+                            + column_offset; // Start position is 1-based.
                         let line_character_end = line_character_start + trimmed_line.len() - 1; // End position is 1-based and inclusive.
                         violations
                             .entry(file_path.clone())
